@@ -239,6 +239,11 @@ def b_print(ip, *a, **k):
 
 
 def b_range(ip, *args):
+    for a in args:
+        if ops.pytype(a) not in ('int', 'bool'):
+            if a is None or ops.pytype(a) in ('bytes', 'str', 'real', 'list', 'dict', 'set', 'tuple', 'none'):
+                ip.ctx.raise_exc('TypeError', "'%s' object cannot be interpreted as an integer" % ops.pytype(a))
+            raise Unsupported('range() of %r' % (a,))
     cs = [ops.const_int(a) for a in args]
     if all(c is not None for c in cs):
         r = RangeList(list(range(*cs)))
